@@ -522,6 +522,13 @@ func (g *GoFakeS3) writeGetOrHeadObjectResponse(obj *Object, w http.ResponseWrit
 		w.Header().Set(mk, mv)
 	}
 
+	// An object uploaded without a Content-Type is served with S3's default.
+	// Left unset, net/http would sniff one from the body of a GET and send
+	// none with a HEAD, so the two would describe the same object differently.
+	if w.Header().Get("Content-Type") == "" {
+		w.Header().Set("Content-Type", "binary/octet-stream")
+	}
+
 	if obj.VersionID != "" {
 		w.Header().Set("x-amz-version-id", string(obj.VersionID))
 	}
